@@ -53,13 +53,35 @@ func runC07(c *Ctx) {
 		c.Rule("C07-R2", "slot exclusivity: findLongestCacheSlot / findBestCacheSlot return a slot only when it is known not to be in use (chosen on the !InUse edge of the same element, or returned on the !X.InUse edge); LoadCacheSlot marks the slot it returns InUse on every success path; the only store of false is in removeSequence, together with clearing the sequence table entry and releasing the semaphore")
 		if f := c.Fn("C07-R2", rel, "InputCache.findLongestCacheSlot"); f != nil {
 			g := c.G(f)
+			// the candidate is the variable the success returns hand back
+			cands := map[types.Object]bool{}
+			for _, ex := range g.Returns() {
+				if g.ReturnKind(ex) == core.RetSuccess && ex.Return != nil && len(ex.Return.Results) > 0 {
+					if id, isId := ast.Unparen(ex.Return.Results[0]).(*ast.Ident); isId && info.Uses[id] != nil {
+						cands[info.Uses[id]] = true
+					}
+				}
+			}
 			for _, as := range g.Find(func(n ast.Node) bool {
 				a, ok := n.(*ast.AssignStmt)
-				if !ok || len(a.Lhs) != 1 {
+				if !ok || len(a.Lhs) != 1 || len(a.Rhs) != 1 {
 					return false
 				}
-				u, isU := ast.Unparen(a.Rhs[0]).(*ast.UnaryExpr)
-				return isU && u.Op == token.AND
+				id, isId := a.Lhs[0].(*ast.Ident)
+				if !isId {
+					return false
+				}
+				o := info.Uses[id]
+				if o == nil {
+					o = info.Defs[id]
+				}
+				if !cands[o] {
+					return false
+				}
+				if x, isX := ast.Unparen(a.Rhs[0]).(*ast.Ident); isX && x.Name == "nil" {
+					return false
+				}
+				return true
 			}) {
 				ok := false
 				for _, a := range g.AtomsAt(as.Loc) {
@@ -498,6 +520,16 @@ func runC07(c *Ctx) {
 				if a, isA := n.(*ast.AssignStmt); isA && len(a.Lhs) == 1 && core.FieldVar(info, a.Lhs[0]) == fInputs {
 					if se, isS := ast.Unparen(a.Rhs[0]).(*ast.SliceExpr); isS && se.Low == nil && se.High != nil && core.FieldVar(info, se.X) == fInputs && isDiffOf(info, se.High, inputLen, discard) {
 						okCut = true
+					}
+				}
+				// the same move as one overlapping copy: copy(Inputs[numKeep:], Inputs[numKeep+discard:inputLen])
+				if cc, isC := n.(*ast.CallExpr); isC && core.CalleeName(info, cc) == "builtin.copy" && len(cc.Args) == 2 {
+					dst, okD := ast.Unparen(cc.Args[0]).(*ast.SliceExpr)
+					src, okS := ast.Unparen(cc.Args[1]).(*ast.SliceExpr)
+					if okD && okS && core.FieldVar(info, dst.X) == fInputs && core.FieldVar(info, src.X) == fInputs &&
+						dst.Low != nil && dst.High == nil && isIdentOf(info, dst.Low, numKeep) &&
+						src.Low != nil && isSumOf(info, src.Low, numKeep, discard) && (src.High == nil || isIdentOf(info, src.High, inputLen)) {
+						okLoop = true
 					}
 				}
 				return true
